@@ -1119,7 +1119,10 @@ class Gen:
         return {"dims": [nx, ny, nz], "actnum": act, "units": units, "nrmult": nrmult,
                 "gridopts": nrmult > 0 or self.chance(40),
                 "dxyz": [self.pick([10.0, 25.0, 7.5]), self.pick([10.0, 20.0]), self.pick([2.0, 5.0, 1.5])],
-                "prog": prog}
+                "prog": prog,
+                # order in which the arrays are asked for (0 = a fixed order): arrays are created lazily on first access,
+                # the answers must not depend on which one was asked for first
+                "qorder": self.i(1, 10 ** 6) if self.chance(50) else 0}
 
 
 @st.composite
@@ -1309,7 +1312,12 @@ class C12(Check):
     def observe(self, P, case, all_active):
         dn = [n for n in ARR if ARR[n]["typ"] == "d"]
         inn = [n for n in ARR if ARR[n]["typ"] == "i"]
-        r = P.call("fieldprops", deck=render(case, all_active), doubles=dn, ints=inn, **{"global": True})
+        q = case.get("qorder", 0)
+        if q:
+            import random as _r         # (a pure function of the drawn number: no randomness of its own)
+            _r.Random(q).shuffle(dn)
+            _r.Random(q + 1).shuffle(inn)
+        r = P.call("fieldprops", deck=render(case, all_active), doubles=dn, ints=inn, ints_first=bool(q % 2), **{"global": True})
         out = {}
         for rec in r["doubles"]:
             d = rec["data"]
